@@ -11,7 +11,10 @@ package dnsforward
 import (
 	"bytes"
 	"context"
+	"crypto/tls"
+	"encoding/binary"
 	"encoding/json"
+	"errors"
 	"fmt"
 	"io"
 	"log/slog"
@@ -19,6 +22,7 @@ import (
 	"net/http"
 	"net/http/httptest"
 	"net/netip"
+	"net/url"
 	"os"
 	"os/exec"
 	"path/filepath"
@@ -154,6 +158,25 @@ type c05Op struct {
 	Addr    string      `json:"from,omitempty"`
 	CID     string      `json:"client_id,omitempty"`
 	Text    string      `json:"text,omitempty"`
+	// Kind "request" (round 6): one encrypted-DNS request with the shape the
+	// ClientID extraction looks at.  Proto: doh | dot | doq.  DoH: Path is the
+	// request path, Host the Host header, HasTLS / SNI the TLS state of the
+	// request (a request without one came over plain HTTP, e.g. through a
+	// reverse proxy: the Host header is used).  DoT / DoQ: Conn is "tls"
+	// (a connection whose handshake carried SNI), "plain" (a connection that
+	// is no TLS connection) or "none".
+	Proto  string `json:"proto,omitempty"`
+	Path   string `json:"path,omitempty"`
+	Host   string `json:"host_header,omitempty"`
+	HasTLS bool   `json:"has_tls_state,omitempty"`
+	SNI    string `json:"sni,omitempty"`
+	Conn   string `json:"conn,omitempty"`
+}
+
+// c05Req: an encrypted-DNS request for ok.example A with the given shape.
+func c05Req(proto, path, host string, hasTLS bool, sni, conn string) c05Op {
+	return c05Op{Kind: "request", Proto: proto, Path: path, Host: host, HasTLS: hasTLS, SNI: sni, Conn: conn,
+		Name: "ok.example.", Qtype: dns.TypeA, Addr: "10.66.0.9"}
 }
 
 func c05HTTP(method, url, body string) c05Op {
@@ -183,6 +206,17 @@ func (o c05Op) String() string {
 		return s
 	case "note":
 		return o.Text
+	case "request":
+		q := fmt.Sprintf("%s %s from %s", dns.TypeToString[o.Qtype], o.Name, o.Addr)
+		if o.Proto == "doh" {
+			tls := "plain http (no TLS state)"
+			if o.HasTLS {
+				tls = fmt.Sprintf("TLS state with server name %q", o.SNI)
+			}
+			return fmt.Sprintf("DoH request GET %s, Host: %q, %s; question %s", o.Path, o.Host, tls, q)
+		}
+		conn := map[string]string{"tls": fmt.Sprintf("TLS connection with server name %q", o.SNI), "plain": "connection that is no TLS connection", "none": "no connection object"}[o.Conn]
+		return fmt.Sprintf("%s request over a %s; question %s", map[string]string{"dot": "DoT", "doq": "DoQ"}[o.Proto], conn, q)
 	case "client-remove":
 		return "clients/delete name=" + o.OldName
 	default:
@@ -194,6 +228,10 @@ func (o c05Op) String() string {
 	}
 }
 
+// mutates: the operation belongs to the journal that a replay repeats.  Admin
+// requests and client edits change the configuration; a "request" must not
+// change anything, which is the point of journalling it: what it leaves
+// behind (a lock, a cache entry) is what the replay is to reproduce.
 func (o c05Op) mutates() bool {
 	return o.Kind != "query" && !(o.Kind == "http" && o.Method == "GET")
 }
@@ -215,6 +253,10 @@ type c05RigOpts struct {
 	LogTo       io.Writer // golibs/log + slog output (Error level), for the panic marker
 	UpdateHours uint32
 	Deadline    time.Duration // per operation, runDL
+	// TLSName: tls.server_name of the server ("" = none: the ClientID is then
+	// taken from the DoH path only); StrictSNI: tls.strict_sni_check
+	TLSName   string
+	StrictSNI bool
 }
 
 type c05Rig struct {
@@ -251,6 +293,22 @@ type c05Rig struct {
 	flMu     sync.Mutex
 	inflight map[int64]c05Flight
 	flSeq    int64
+
+	// dnsproxy numbers the requests; HandleBefore files the ClientID under that
+	// number for processInitial to pick up
+	reqID atomic.Uint64
+	// outcomes of the shaped requests (kind "request"), by protocol and result
+	reqMu       sync.Mutex
+	reqOutcomes map[string]int
+}
+
+func (g *c05Rig) reqOutcome(op c05Op, what string) {
+	g.reqMu.Lock()
+	defer g.reqMu.Unlock()
+	if g.reqOutcomes == nil {
+		g.reqOutcomes = map[string]int{}
+	}
+	g.reqOutcomes[op.Proto+": "+what]++
 }
 
 type c05Flight struct {
@@ -488,7 +546,7 @@ func c05NewRig(t *testing.T, o c05RigOpts) *c05Rig {
 	if err = g.s.Prepare(&ServerConfig{
 		UDPListenAddrs: []*net.UDPAddr{{IP: net.IP{127, 0, 0, 1}}},
 		TCPListenAddrs: []*net.TCPAddr{{IP: net.IP{127, 0, 0, 1}}},
-		TLSConf:        &TLSConfig{},
+		TLSConf:        &TLSConfig{ServerName: o.TLSName, StrictSNICheck: o.StrictSNI},
 		Config: Config{
 			UpstreamDNS: []string{upsAddr}, UpstreamMode: UpstreamModeLoadBalance,
 			EDNSClientSubnet: &EDNSClientSubnet{Enabled: false}, ClientsContainer: g.storage,
@@ -621,8 +679,90 @@ func (g *c05Rig) exec(op c05Op) (code int) {
 	case "query":
 		g.guard(func() string { return what() }, func() { g.query(op) })
 		return 0
+	case "request":
+		g.guard(func() string { return what() }, func() { g.request(op) })
+		return 0
 	}
 	return 0
+}
+
+// request: one encrypted-DNS request of the given shape through HandleBefore
+// (what dnsproxy calls for every request) and, when that lets it through,
+// handleDNSRequest.  Judged: whatever the shape, the client gets a well-formed
+// response: either the request is processed, or HandleBefore answers itself
+// (SERVFAIL when the ClientID cannot be determined, REFUSED when the access
+// settings block the client) through a proxy.BeforeRequestError.
+func (g *c05Rig) request(op c05Op) {
+	g.queries.Add(1)
+	addr, err := netip.ParseAddr(op.Addr)
+	if err != nil {
+		addr = netip.MustParseAddr("10.66.0.9")
+	}
+	req := createTestMessageWithType(op.Name, op.Qtype)
+	pctx := &proxy.DNSContext{Req: req, Addr: netip.AddrPortFrom(addr, 34567), RequestID: g.reqID.Add(1)}
+	switch op.Proto {
+	case "doh":
+		pctx.Proto = proxy.ProtoHTTPS
+		// as the DoH server sees it: net/http has parsed the request line and
+		// the Host header; a path it would not parse cannot arrive
+		r := &http.Request{Method: "GET", ProtoMajor: 1, ProtoMinor: 1, URL: &url.URL{Path: op.Path}, Host: op.Host, Header: http.Header{}}
+		if op.HasTLS {
+			r.TLS = &tls.ConnectionState{ServerName: op.SNI}
+		}
+		pctx.HTTPRequest = r
+	case "dot":
+		pctx.Proto = proxy.ProtoTLS
+		switch op.Conn {
+		case "tls":
+			pctx.Conn = testTLSConn{serverName: op.SNI}
+		case "plain":
+			pctx.Conn = &net.TCPConn{}
+		}
+	case "doq":
+		pctx.Proto = proxy.ProtoQUIC
+		if op.Conn == "tls" {
+			pctx.QUICConnection = testQUICConnection{serverName: op.SNI}
+		}
+	default:
+		return
+	}
+	if err = g.s.HandleBefore(nil, pctx); err != nil {
+		bre := &proxy.BeforeRequestError{}
+		if !errors.As(err, &bre) || bre.Response == nil {
+			g.note(&g.Malformed, "%s: HandleBefore failed without a response for the client: %v; after [%s]", op, err, g.recent())
+			return
+		}
+		g.reqOutcome(op, "answered by HandleBefore with "+dns.RcodeToString[bre.Response.Rcode])
+		if res := bre.Response; !res.Response || (res.Rcode != dns.RcodeServerFailure && res.Rcode != dns.RcodeRefused) {
+			g.note(&g.Malformed, "%s: HandleBefore answered with %v; after [%s]", op, res, g.recent())
+		} else if v := c05WireCheck(req, res); v != "" {
+			g.note(&g.Malformed, "%s: %s; after [%s]", op, v, g.recent())
+		}
+		return
+	}
+	if err = g.s.handleDNSRequest(nil, pctx); err != nil {
+		if e := err.Error(); strings.Contains(e, "timeout") || strings.Contains(e, "deadline exceeded") ||
+			strings.Contains(e, "exchanging with") || strings.Contains(e, "dialing") {
+			g.upstreamErrs.Add(1)
+			return
+		}
+		g.note(&g.Malformed, "%s: handleDNSRequest error %v; after [%s]", op, err, g.recent())
+		return
+	}
+	if key := [8]byte{}; true {
+		// the ClientID HandleBefore stored for the request, if any
+		binary.BigEndian.PutUint64(key[:], pctx.RequestID)
+		if id := g.s.clientIDCache.Get(key[:]); len(id) > 0 {
+			g.reqOutcome(op, "processed with a ClientID")
+		} else {
+			g.reqOutcome(op, "processed without a ClientID")
+		}
+	}
+	if res := pctx.Res; res == nil {
+		g.note(&g.Malformed, "%s: no response; after [%s]", op, g.recent())
+	} else if v := c05WireCheck(req, res); v != "" {
+		g.note(&g.Malformed, "%s: %s; after [%s]", op, v, g.recent())
+	}
 }
 
 // query: one query through the real request path, judged for well-formedness.
@@ -636,7 +776,7 @@ func (g *c05Rig) query(op c05Op) (res *dns.Msg) {
 		addr = netip.MustParseAddr("10.66.0.9")
 	}
 	req := createTestMessageWithType(op.Name, op.Qtype)
-	pctx := &proxy.DNSContext{Proto: proxy.ProtoUDP, Req: req, Addr: netip.AddrPortFrom(addr, 5353)}
+	pctx := &proxy.DNSContext{Proto: proxy.ProtoUDP, Req: req, Addr: netip.AddrPortFrom(addr, 5353), RequestID: g.reqID.Add(1)}
 	if op.CID != "" {
 		pctx.Proto = proxy.ProtoHTTPS
 		pctx.HTTPRequest = httptest.NewRequest("GET", "/dns-query/"+op.CID, nil)
